@@ -198,6 +198,9 @@ func HarnessLogout() {
 	if vrtProp("C08") || vrtProp("C18") {
 		vrtAssert(vrtPropID()+".single-message", rp.Docs+rp.Forms <= 1)
 	}
+	if vrtProp("C18") {
+		vrtC18Reply(rp, rp.Kind == "form" || rp.Kind == "xml", d.decoded)
+	}
 }
 
 // HarnessLogoutConformant (C07): a LogoutRequest as a conformant, registered
